@@ -40,7 +40,8 @@ CONSTANT Lits          \* literal dictionary: x.v (repr text) |-> integer value
 \* in the literal dictionary the semantics is the AS-IS rendering - a cross join emitted as FULL OUTER JOIN ON
 \* true, and Not mapped to python's "not" (a constant: the negated python truth value of the operand's target
 \* code, defined for == / != / nested not only; no SQL at all - an exception - for any other operand).
-AsIs == "$asis" \in DOMAIN Lits
+AsIs == "$asis" \in DOMAIN Lits          \* cross join rendered as FULL OUTER JOIN ON true
+AsIsNot == "$asisnot" \in DOMAIN Lits    \* Not rendered as the python truth of its operand
 
 NULL == -9999
 Poison == -7777        \* value of an operator this semantics does not define: never equals an observed value
@@ -125,7 +126,7 @@ OpVal(e, a1, a2) ==
       [] e.op = "and" -> And3(a1, a2)
       [] e.op = "or" -> Or3(a1, a2)
       [] e.op = "not" ->
-           IF ~AsIs THEN Not3(a1)
+           IF ~AsIsNot THEN Not3(a1)
            ELSE IF PyTruth(e.args[1]) = -1 THEN Poison ELSE 1 - PyTruth(e.args[1])
       [] e.op = "isnull" -> B(a1 = NULL)
       [] e.op = "notnull" -> B(a1 # NULL)
